@@ -4,7 +4,7 @@ import common, zoo as zoolib, filelevel, workloads
 from common import Pair, proof_stage, rebuild_tools, build_pqh, build_zoo, Lock, TRUSTED_BASE
 
 MODULE = "PQ.Props.C02"
-THEOREMS = ["PQ.C02.thrift_decodes", "PQ.C02.thrift_bytes", "PQ.C02.level_section_valid", "PQ.C02.page_valid", "PQ.C06.offsets_truthful", "PQ.C06.offsets_contiguous", "PQ.C06.rowgroups_refine_batches", "PQ.C06.chain_shape"]
+THEOREMS = ["PQ.C02.thrift_decodes", "PQ.C02.thrift_bytes", "PQ.C02.level_section_valid", "PQ.C02.page_valid", "PQ.C02.file_valid", "PQ.schema_valid", "PQ.schemaElems_tree", "PQ.schemaLeaves_tree", "PQ.parseFile_runWriter", "PQ.parseFile_runWriter_records", "PQ.C06.offsets_truthful", "PQ.C06.offsets_contiguous", "PQ.C06.rowgroups_refine_batches", "PQ.C06.chain_shape"]
 
 
 def run(chk):
